@@ -569,6 +569,32 @@ def two_external_operators():
     return (N2 * N1 + N1 + N2) * v * ufl.dx
 
 
+def external_operators_two_meshes():
+    # same operands, function spaces on different meshes: only the operator data can order them
+    m1 = EV.mesh("triangle")
+    m2 = EV.mesh("triangle")
+    S1 = ufl.FunctionSpace(m1, E.P("triangle", 1))
+    S2 = ufl.FunctionSpace(m2, E.P("triangle", 1))
+    f = ufl.Coefficient(S1)
+    v = ufl.TestFunction(S1)
+    N1 = ufl.ExternalOperator(f, function_space=S1)
+    N2 = ufl.ExternalOperator(f, function_space=S2)
+    # (CellVolume(m2) makes m2 a domain of the form; the operator's space alone does not)
+    return (N2 * N1 + N1 + N2) * CellVolume(m2) * v * ufl.dx(m1)
+
+
+def external_operators_argument_slots():
+    # same operands and space, argument slots holding different coefficients
+    m, S, u, v = _tri_uv()
+    f = ufl.Coefficient(S)
+    w1 = ufl.Coefficient(S)
+    w2 = ufl.Coefficient(S)
+    vstar = ufl.Argument(S.dual(), 0)
+    N1 = ufl.ExternalOperator(f, function_space=S, derivatives=(1,), argument_slots=(vstar, w1))
+    N2 = ufl.ExternalOperator(f, function_space=S, derivatives=(1,), argument_slots=(vstar, w2))
+    return (N2 * N1 + N2 + N1) * v * ufl.dx
+
+
 CATALOGUE = [
     mass,
     poisson_index_grad,
@@ -624,6 +650,8 @@ CATALOGUE = [
     preprocessed_form,
     external_operator,
     two_external_operators,
+    external_operators_two_meshes,
+    external_operators_argument_slots,
 ]
 
 BY_NAME = {f.__name__: f for f in CATALOGUE}
